@@ -376,4 +376,159 @@ theorem C17_reuse_only_clean (cfg : Cfg) (now a : Nat) (p : Pool) (c : Conn) (p'
 example : ∃ p c p', acquire ⟨1, 15000, 75000⟩ 5 0 p = (p', c, true) :=
   ⟨⟨[(0, [⟨7, 0, 1, 2, [], false⟩])], [], 8⟩, _, _, rfl⟩
 
+
+/-! ## Part 2 — the body: all byte streams, all segmentations, all close points
+
+`runBody k buf0 segs closed` is the model of `PlStream` over `Framed<_, ClientPayloadCodec>`:
+`buf0` is what the head read left in the buffer, `segs` are the following socket reads (any
+number, any sizes), `closed` says whether the peer closes after them. `runBytes` is the
+byte-at-a-time reading of the same decoder (`Proofs/ClientDecode.lean`, proved equal to the
+code-shaped bulk decoder), used here as the definition of "the framed end is reached". -/
+
+/-- **C17_segmentation_independent** — what is delivered and how the stream ends depends only on
+the concatenated bytes (and on whether the peer closed), not on how the reads cut them — for
+every decoder state, every pair of segmentations, including 1-byte reads and a cut anywhere
+inside a chunk-size line, a CRLF or the data. -/
+theorem C17_segmentation_independent (k : Kind) (hwf : WF k) (b0 b0' : Bytes) (segs segs' : List Bytes)
+    (closed : Bool) (h : b0 ++ flat segs = b0' ++ flat segs') :
+    (runBody k b0 segs closed).delivered = (runBody k b0' segs' closed).delivered ∧
+    (runBody k b0 segs closed).fin = (runBody k b0' segs' closed).fin := by
+  have h1 := runBody_closed_form k hwf b0 segs closed
+  have h2 := runBody_closed_form k hwf b0' segs' closed
+  simp only [] at h1 h2
+  rw [h] at h1
+  exact ⟨h1.1.trans h2.1.symm, h1.2.trans h2.2.symm⟩
+
+example : (runBody (.chunked .size 0) [51, 13] [[10, 97], [98, 99, 13, 10, 48, 13], [10, 13, 10]] false).delivered
+    = [97, 98, 99] := by decide
+
+/-- **C17_complete_or_error** — for a body framed by Content-Length or by chunked coding
+(`fam k ≠ 2`), for every byte stream, every segmentation and every close point:
+* the stream ends cleanly (`complete`: the only end after which `body()` returns `Ok`) exactly
+  when the decoder's framed end lies inside the bytes received, and the bytes delivered are
+  exactly the bytes decoded up to there;
+* if the peer closes before that, the end is an error (`incomplete` = `PayloadError::Incomplete`,
+  or `ioError` for a syntax error seen earlier) — never a clean end, never a silent wait;
+* the "ends with the connection" outcome does not exist for these framings. -/
+theorem C17_complete_or_error (k : Kind) (hwf : WF k) (hk : fam k ≠ 2) (b0 : Bytes) (segs : List Bytes)
+    (closed : Bool) :
+    ((runBody k b0 segs closed).fin = .complete ↔ (runBytes k (b0 ++ flat segs) []).st = .done) ∧
+    (runBody k b0 segs closed).delivered = (runBytes k (b0 ++ flat segs) []).out ∧
+    (closed = true → (runBytes k (b0 ++ flat segs) []).st ≠ .done →
+      (runBody k b0 segs closed).fin = .incomplete ∨ (runBody k b0 segs closed).fin = .ioError) ∧
+    (runBody k b0 segs closed).fin ≠ .closeDelimited := by
+  have h := runBody_closed_form k hwf b0 segs closed
+  simp only [] at h
+  obtain ⟨hout, hfin⟩ := h
+  have hkind : (runBytes k (b0 ++ flat segs) []).st = .more → (runBytes k (b0 ++ flat segs) []).kind ≠ .eof := by
+    intro hm he
+    have := runBytes_fam k (b0 ++ flat segs) [] (by rw [hm]; decide)
+    rw [he] at this
+    exact hk this.symm
+  cases hst : (runBytes k (b0 ++ flat segs) []).st with
+  | done => rw [hst] at hfin; simp [hfin, hout]
+  | failed => rw [hst] at hfin; simp [hfin, hout]
+  | more =>
+    rw [hst] at hfin
+    have hne := hkind hst
+    cases closed <;> simp [hfin, hout, hne]
+
+example : WF (.length 10) ∧ fam (.length 10) ≠ 2 := by simp [WF, fam]
+
+/-- **C17_length_exact** — Content-Length `n`: with at least `n` bytes the body is their first
+`n` and the end is clean (everything after is left over); with fewer, every byte received is
+passed on and then the close is reported as `Incomplete` (or the client keeps waiting while the
+connection stays open) — for every segmentation. -/
+theorem C17_length_exact (n : Nat) (b0 : Bytes) (segs : List Bytes) (closed : Bool) :
+    (n ≤ (b0 ++ flat segs).length →
+      (runBody (.length n) b0 segs closed).delivered = (b0 ++ flat segs).take n ∧
+      (runBody (.length n) b0 segs closed).fin = .complete) ∧
+    ((b0 ++ flat segs).length < n →
+      (runBody (.length n) b0 segs closed).delivered = b0 ++ flat segs ∧
+      (runBody (.length n) b0 segs closed).fin = if closed then .incomplete else .pending) := by
+  have h := runBody_closed_form (.length n) (by simp [WF]) b0 segs closed
+  simp only [runBytes_length] at h
+  constructor
+  · intro hle
+    simp only [hle, if_true] at h
+    exact h
+  · intro hlt
+    have : ¬ n ≤ (b0 ++ flat segs).length := by omega
+    simp only [this, if_false] at h
+    refine ⟨h.1, ?_⟩
+    rw [h.2]
+    simp
+
+/-- **C17_chunked_exact** — chunked coding: if the bytes received start with the wire form of
+the chunks `cs` (hex size, CRLF, data, CRLF … `0` CRLF CRLF), then — whatever the segmentation and
+whatever follows — exactly `cs` joined is delivered and the end is clean. -/
+theorem C17_chunked_exact (cs : List Bytes) (rest b0 : Bytes) (segs : List Bytes) (closed : Bool)
+    (hcs : ∀ c ∈ cs, c ≠ [] ∧ c.length < u64Bound)
+    (h : b0 ++ flat segs = encodeChunked cs ++ rest) :
+    (runBody (.chunked .size 0) b0 segs closed).delivered = flat cs ∧
+    (runBody (.chunked .size 0) b0 segs closed).fin = .complete := by
+  have hc := runBody_closed_form (.chunked .size 0) (by simp [WF]) b0 segs closed
+  simp only [h, runBytes_encodeChunked cs rest [] hcs, List.nil_append] at hc
+  exact hc
+
+example : encodeChunked [[97, 98, 99]] = [51, 13, 10, 97, 98, 99, 13, 10, 48, 13, 10, 13, 10] := by decide
+
+/-- **C17_truncated_is_error** — let `whole` be a byte string that is exactly one framed body
+(the decoder reaches its end on the last byte). If the peer closes after any *strict prefix* of
+it — at every byte offset, under every segmentation — the client reports
+`PayloadError::Incomplete`; it never returns the bytes so far as a success. -/
+theorem C17_truncated_is_error (k : Kind) (hwf : WF k) (hk : fam k ≠ 2) (whole : Bytes)
+    (hdone : (runBytes k whole []).st = .done) (hexact : (runBytes k whole []).buf = [])
+    (b0 : Bytes) (segs : List Bytes) (suffix : Bytes) (hsuf : suffix ≠ [])
+    (hpre : (b0 ++ flat segs) ++ suffix = whole) :
+    (runBody k b0 segs true).fin = .incomplete := by
+  have happ := runBytes_append k (b0 ++ flat segs) suffix []
+  rw [hpre] at happ
+  have hcf := runBody_closed_form k hwf b0 segs true
+  simp only [] at hcf
+  cases hst : (runBytes k (b0 ++ flat segs) []).st with
+  | done =>
+    rw [hst] at happ
+    simp only [] at happ
+    rw [happ] at hexact
+    simp only [List.append_eq_nil_iff] at hexact
+    exact absurd hexact.2 hsuf
+  | failed =>
+    rw [hst] at happ
+    simp only [] at happ
+    rw [happ, hst] at hdone
+    exact absurd hdone (by decide)
+  | more =>
+    have hne : (runBytes k (b0 ++ flat segs) []).kind ≠ .eof := by
+      intro he
+      have := runBytes_fam k (b0 ++ flat segs) [] (by rw [hst]; decide)
+      rw [he] at this
+      exact hk this.symm
+    rw [hcf.2, hst]
+    simp [hne]
+
+/-- every strict prefix of a chunked message, cut anywhere (inside a size line, between CR and
+LF, inside the data, before the final CRLF), closed there ⇒ `Incomplete` -/
+theorem C17_truncated_chunked_is_error (cs : List Bytes) (hcs : ∀ c ∈ cs, c ≠ [] ∧ c.length < u64Bound)
+    (b0 : Bytes) (segs : List Bytes) (suffix : Bytes) (hsuf : suffix ≠ [])
+    (hpre : (b0 ++ flat segs) ++ suffix = encodeChunked cs) :
+    (runBody (.chunked .size 0) b0 segs true).fin = .incomplete := by
+  have hr := runBytes_encodeChunked cs [] [] hcs
+  simp only [List.append_nil] at hr
+  exact C17_truncated_is_error (.chunked .size 0) (by simp [WF]) (by simp [fam]) (encodeChunked cs)
+    (by rw [hr]) (by rw [hr]) b0 segs suffix hsuf hpre
+
+example : (runBody (.chunked .size 0) [] [[51, 13, 10, 97, 98]] true).fin = .incomplete := by decide
+example : (runBody (.length 10) [97, 98, 99] [] true).fin = .incomplete := by decide
+
+/-- **C17_until_close** — the counterpart that keeps the F8 repair honest: a body that is framed
+by the end of the connection (HTTP/1.0 without Content-Length) delivers every byte received and
+ends cleanly when the peer closes; its connection is never pooled (see `C17_release_iff`). -/
+theorem C17_until_close (b0 : Bytes) (segs : List Bytes) :
+    (runBody .eof b0 segs true).delivered = b0 ++ flat segs ∧
+    (runBody .eof b0 segs true).fin = .closeDelimited := by
+  have h := runBody_closed_form .eof (by simp [WF]) b0 segs true
+  simp only [runBytes_eof_all, List.nil_append] at h
+  simpa using h
+
 end ActixModel.C17
